@@ -219,6 +219,57 @@ def _format_mix(rng, n, kind):
     return [rng.choice(["coo", "gcxs", "dok"]) for _ in range(n)]
 
 
+def _exact_member(rng, shape, nnz, fmt, idx_dtype, caxes=None):
+    """a member with exactly nnz stored elements (fill 0)"""
+    import itertools
+    cells = list(itertools.product(*[range(d) for d in shape]))
+    pos = sorted(rng.sample(cells, nnz))
+    return {"shape": list(shape), "coords": [list(p) for p in pos], "data": [rng.choice((1, 2, 3, -1)) for _ in pos],
+            "fill": 0, "format": fmt, "caxes": caxes, "idx_dtype": idx_dtype}
+
+
+def capacity_cases(tier, rng):
+    """GCXS joiners with narrow index dtypes whose TOTAL nnz / joined ROW COUNT sits at the dtype's capacity
+    (cap-1, cap, cap+1, cap+2): the index pointer has to hold the total nnz and, when uncompressed, every row
+    number.  int16 cases are too large for the in-Coq judge: they are judged by the raw-representation and
+    todense() cross-checks against NumPy only (`py_only`)."""
+    cases = []
+    for dt, cap, py_only in (("int8", 127, False), ("uint8", 255, False), ("int16", 32767, True)):
+        if py_only and tier == "quick" and rng.random() < 0.0:
+            continue
+        for delta in (-1, 0, 1, 2):
+            total = cap + delta
+            # (1) total nnz at capacity: two or three members, few rows
+            for fn, axis, caxes in (("concatenate", 0, None), ("concatenate", 1, None), ("concatenate", -1, [0]),
+                                    ("concatenate", -2, [1]), ("stack", 0, None), ("stack", 2, None), ("stack", -2, [0])):
+                if py_only and (fn, axis) not in (("concatenate", 0), ("stack", 0)):
+                    continue
+                n = 2 if py_only or rng.random() < 0.6 else 3
+                if fn == "stack":
+                    n = 2
+                rows = 200 if py_only else (40 if cap == 127 else 70)
+                cols = 100 if py_only else 2
+                parts = [total // n + (1 if i < total % n else 0) for i in range(n)]
+                ms = [_exact_member(rng, (rows, cols), parts[i], "gcxs", dt, caxes=rng.choice(([0], [1])))
+                      for i in range(n)]
+                cases.append({"fn": fn, "axis": axis, "caxes": caxes, "members": ms, "tag": "capacity-nnz:" + dt,
+                              "py_only": py_only})
+            # (2) joined row count at capacity: concatenation along the (to be) compressed axis, few elements
+            for axis, caxes in ((0, None), (-2, [0]), (1, None), (0, [1])):
+                if py_only and axis != 0:
+                    continue
+                n = 2 if py_only else rng.choice((2, 3))
+                parts = [total // n + (1 if i < total % n else 0) for i in range(n)]
+                ms = []
+                for i in range(n):
+                    sh = [2, 2]
+                    sh[axis] = parts[i]
+                    ms.append(_exact_member(rng, sh, min(6, parts[i]), "gcxs", dt, caxes=rng.choice(([0], [1]))))
+                cases.append({"fn": "concatenate", "axis": axis, "caxes": caxes, "members": ms,
+                              "tag": "capacity-rows:" + dt, "py_only": py_only})
+    return cases
+
+
 def join_cases(tier, rng):
     cases = []
     reps = 2 if tier == "quick" else 10
@@ -322,6 +373,7 @@ def join_cases(tier, rng):
             base[ax] = ext
             ms = [_member(rng, base, "gcxs", 0, idx_dtype=dt, density=0.1) for _ in range(2)]
             cases.append({"fn": "concatenate", "axis": ax, "caxes": None, "members": ms, "tag": "idx_dtype:" + dt})
+    cases += capacity_cases(tier, rng)
     return cases
 
 
@@ -407,6 +459,24 @@ def extract_cases(tier, rng):
                     ])
                     cases.append({"op": "take", "axis": axis, "ind": ind, "x": x,
                                   "as_array": isinstance(ind, list) and (len(ind) == 0 or rng.random() < 0.5)})
+    # every signed and unsigned coordinate dtype: negative and positive offsets / k, every ordered axis pair
+    for dt in ("int8", "int16", "int32", "int64", "uint8", "uint16", "uint32", "uint64"):
+        for sh in ([3, 3], [2, 2, 2]) if tier == "quick" else ([3, 3], [2, 2, 2], [3, 2, 3], [2, 3, 3, 2]):
+            nd = len(sh)
+            x = _member(rng, sh, "coo", rng.choice([0, 0, 5]), idx_dtype=dt, density=rng.choice([0.7, 1.0]))
+            for a1, a2 in itertools.permutations(range(nd), 2):
+                if sh[a1] != sh[a2]:
+                    continue
+                n = sh[a1]
+                for off in range(-n, n + 1):
+                    neg = rng.random() < 0.3
+                    cases.append({"op": "diagonal", "offset": off, "axis1": a1 - nd if neg else a1, "axis2": a2, "x": x})
+            x0 = _member(rng, sh, "coo", 0, idx_dtype=dt, density=rng.choice([0.7, 1.0]))
+            for k in range(-3, 4):
+                cases.append({"op": "triu", "k": k, "x": x0})
+                cases.append({"op": "tril", "k": k, "x": x0})
+            for axis in range(-nd, nd):
+                cases.append({"op": "diagonalize", "axis": axis, "x": x0})
     return cases
 
 
@@ -504,10 +574,23 @@ def campaign(build, tier, seed, report, budget=1):
 
     # ---- joins
     jl, jmap = [], []
+    bad_py = set()
     for i, (c, r) in enumerate(zip(jc, jr, strict=True)):
         if failed(r):
             viol.append({"property": "C09", "op": c["fn"], "kind": "value", "clause": "hang_or_crash",
                          "case": c, "impl": r, "replay_py": replay_join(c)})
+            continue
+        if c.get("py_only"):
+            # too large for the in-Coq judge: raw representation and todense() against NumPy, shape/format/fill here
+            res = r["res"]
+            bad = (res.get("k") not in ("coo", "gcxs", "dok") or r.get("rep_ok") is not True
+                   or res.get("fill") != c["members"][0]["fill"])
+            if bad:
+                viol.append({"property": "C09", "op": "concatenate" if c["fn"] == "concat" else c["fn"], "kind": "value",
+                             "clause": None, "what": "large case judged against NumPy only", "case": c, "impl":
+                             {k: v for k, v in res.items() if k not in ("data", "indices", "indptr", "coords")},
+                             "replay_py": replay_join(c)})
+                bad_py.add(id(c))
             continue
         jl.append(_lit_join(c, r))
         jmap.append(i)
@@ -543,10 +626,12 @@ def campaign(build, tier, seed, report, budget=1):
             tag("join/coo-joiner/" + ("sorted-flag-true" if ax is None or ax in (0, -nd) else "constructor-sorts"))
         else:
             tag("join/gcxs-joiner/" + ("compressed_axes-given" if c["caxes"] is not None else "default-caxes"))
+        if c["tag"].startswith("capacity"):
+            tag("join/" + c["tag"] + "->" + str(r["res"].get("idx_dtype", r["res"].get("cls"))))
         if c["tag"].startswith("idx_dtype"):
             tag("join/" + c["tag"] + "->" + str(r["res"].get("idx_dtype")))
         # the Spec itself against NumPy: whenever the judge accepted a non-exception result, NumPy must agree
-        if r.get("rep_ok") is False and bad_codes.get(id(c)) is None:
+        if r.get("rep_ok") is False and id(c) not in bad_codes:
             spec_vs_numpy += 1
             viol.append({"property": "C09", "op": c["fn"], "kind": "representation", "clause": "spec_differs_from_numpy",
                          "case": c, "impl": r["res"], "replay_py": replay_join(c)})
@@ -554,7 +639,7 @@ def campaign(build, tier, seed, report, budget=1):
         # itself cannot read the object back: its index dtype is too narrow for the joined extent
         # (todense()/tocoo() raise, or wrap around silently)
         if r.get("rep_ok") and (r.get("np_ok") is False or isinstance(r.get("np_ok"), str)) \
-                and bad_codes.get(id(c)) is None:
+                and id(c) not in bad_codes:
             tag("join/result-unreadable/" + str(r["res"].get("idx_dtype")))
             viol.append({"property": "C09", "op": "concatenate" if c["fn"] == "concat" else c["fn"], "kind": "value",
                          "clause": None, "what": "joined result cannot be read back (index dtype too narrow); "
@@ -564,7 +649,7 @@ def campaign(build, tier, seed, report, budget=1):
     # ---- kernel: indptr splice
     sl, smap = [], []
     for i, r in enumerate(jr):
-        if not failed(r) and "splice" in r:
+        if not failed(r) and "splice" in r and not jc[i].get("py_only"):
             s = r["splice"]
             sl.append(vpair(vlist(s["members"], lambda m: vpair(vlist(m[0]), vZ(m[1]))), vlist(s["out"])))
             smap.append(i)
@@ -595,6 +680,7 @@ def campaign(build, tier, seed, report, budget=1):
         if c["op"] == "take":
             t += "/int" if not isinstance(c["ind"], list) else "/list"
             t += "/axis-None" if c["axis"] is None else ""
+        t += "/idx:" + c["x"]["idx_dtype"] if c["x"].get("idx_dtype") else ""
         t += "/raises-" + str(res.get("cls")) if res.get("k") == "exc" else ""
         tag(t)
     for g, (lits, imap) in groups.items():
